@@ -99,8 +99,8 @@ Definition astype_float (c : option num) : num := match c with None => NNaN | So
 Definition numerical_forward {L} (s : @series L (option num)) : list num := map astype_float (ser_values s).
 
 (* ------------------------------------------------------------------------- *)
-(* CategoricalTensorMapper: categories index; forward = merge, .values,
-   index[index.isnan()] = -1, .to(long) *)
+(* CategoricalTensorMapper: categories index; forward = merge (on object keys),
+   .values, index[index.isnan()] = -1, .to(long) *)
 Definition categorical_forward {L} (cats : list pval) (s : @series L (option pval)) : list Z :=
   let index := map snd (merge_left s (range_index cats)) in        (* [...]['index'].values *)
   map (fun o => match o with None => (-1)%Z | Some k => k end) index.
@@ -174,7 +174,7 @@ Definition split_by_sep (row : mc_cell) (sep : option str) : option (list pval) 
   | MCOther => None
   end.
 
-(* self.index = concat(Series(index=categories, data=range), Series([-1], index=[-1])) *)
+(* self.index = Series(index=Index(categories + [-1], dtype=object), data=[0..len-1] + [-1]) *)
 Definition multicat_index (cats : list pval) : list (pval * Z) := range_index cats ++ [(VInt (-1), (-1)%Z)].
 
 (* offset = ser.index.value_counts().reindex(original_index, fill_value=0) *)
